@@ -121,8 +121,67 @@ def check(prog, run):
                     run.ok("unchanged-node-keeps-handle", "SCSIDevice.execute same inode")
                 else:
                     run.violation("unchanged-node-keeps-handle", "SCSIDevice.execute same inode", "calls: %s" % names, *where)
+    # sequences of commands with the node replaced between them and open() failing at any point: whatever happened before,
+    # a command is only ever sent through a handle that is still open and was opened on the node that exists now
+    nseq = 0
+    for ncmd in (2, 3):
+        si = StandIn(prog, check_condition="never", open_fails="fork", node_model=True).install()
+        try:
+            def tseq(ncmd=ncmd):
+                si.node_gen = 0
+                si.closed = set()
+                dev = make_scsi_device(prog)
+                dev.attrs["_detect_replugged"] = True
+                dev.attrs["_ino"].inode_gen = 0
+                dev.attrs["_file"].opened_on_gen = 0
+                log = []
+                for i in range(ncmd):
+                    if I.decide("the node is replaced before command %d" % (i + 1), None, _F()):
+                        si.node_gen += 1
+                    cmd, cdb, dout, din = marker_cmd(prog, 0, 8)
+                    n0 = len(I.events)
+                    try:
+                        I.call_function(ex, [dev, cmd], {}, None, _F())
+                        out = "returns"
+                    except PyRaise as e_:
+                        out = "raises " + e_.describe()[:60]
+                    sent = [e for e in I.events[n0:] if e["kind"] == "external-call" and e["name"] == "sgio.execute"]
+                    for e in sent:
+                        h = e["args"][0]
+                        log.append((i + 1, out, getattr(h, "name", repr(h)), getattr(h, "opened_on_gen", None), si.node_gen,
+                                    getattr(h, "name", None) in si.closed))
+                    if not sent:
+                        log.append((i + 1, out, None, None, si.node_gen, False))
+                return log
+            paths = I.explore(tseq, max_paths=512)
+        finally:
+            si.remove()
+        for p in paths:
+            nseq += 1
+            if not p.returned:
+                run.violation("no-stale-handle", "SCSIDevice.execute sequence of %d commands" % ncmd, "the scenario raises %s" % p.raised.describe(), *where)
+                continue
+            bad = None
+            for (i, out, h, hgen, gen, closed) in p.value:
+                if h is None:
+                    if out == "returns":
+                        bad = "command %d returns normally without having been sent" % i
+                    continue
+                if closed:
+                    bad = "command %d is sent through %s, which was closed before" % (i, h)
+                elif hgen != gen:
+                    bad = "command %d is sent through %s, opened on an earlier node at the device path (the node was replaced since)" % (i, h)
+                if bad:
+                    break
+            c = "SCSIDevice.execute sequence of %d commands" % ncmd
+            if bad:
+                run.violation("no-stale-handle", c, "on the history [%s]: %s" % (p.cond_str(), bad), *where)
+            else:
+                run.ok("no-stale-handle", "%s [%s]" % (c, p.cond_str()))
+    run.count("execute_sequences", nseq)
     run.count("execute_paths", npaths)
     run.floor("execute paths", npaths, 3)
+    run.floor("execute sequences (node replaced / open fails)", nseq, 20)
     # _is_replugged compares the current inode of _file_name with _ino
     isr = prog.func(DEV_MOD, "SCSIDevice", "_is_replugged")
     si = StandIn(prog).install()
